@@ -376,6 +376,9 @@ class Engine:
             return [("n", st, ("scope_index",))]
         if txt.endswith(".loop_stack") and txt.startswith("self.scopes["):
             return [("n", st, ("loopstack",))]
+        if txt.startswith("self.scopes[") and (txt.endswith(".instructions") or txt.endswith(".instructions.code") or txt.endswith(".instructions.lines")):
+            # the current scope's instruction stream, read directly instead of through get_curr_instructions()
+            return [("n", st, ("instrs",))]
         if txt.endswith(".is_filter") and txt.startswith("self.scopes["):
             return [("n", st, ("bool", st.kind == "filter"))]
         if txt.endswith(".operand_depth") and txt.startswith("self.scopes["):
@@ -398,6 +401,10 @@ class Engine:
                     out.append(("n", s, UNK))
             elif v and v[0] == "scope" and n["name"] == "loop_stack":
                 out.append(("n", s, ("loopstack",)))
+            elif v and v[0] == "scope" and n["name"] == "instructions":
+                out.append(("n", s, ("instrs",)))
+            elif v and v[0] == "instrs" and n["name"] in ("code", "lines"):
+                out.append(("n", s, ("instrs",)))
             elif v and v[0] == "scope" and n["name"] == "is_filter":
                 out.append(("n", s, ("bool", s.kind == "filter")))
             elif v and v[0] == "scope" and n["name"] == "operand_depth":
